@@ -2968,6 +2968,13 @@ func fileFromReader(name string, reader io.Reader) (*File, error) {
 // References:
 //   - https://datatracker.ietf.org/doc/html/rfc2183
 func fileFromReadSeeker(name string, reader io.ReadSeeker) *File {
+	// The content of the file is what the reader delivers from the position it has now. Every
+	// render returns to that position, so that a reader that was handed over partly consumed
+	// yields the same content in every render.
+	start, err := reader.Seek(0, io.SeekCurrent)
+	if err != nil {
+		start = 0
+	}
 	return &File{
 		Name:   name,
 		Header: make(map[string][]string),
@@ -2975,10 +2982,10 @@ func fileFromReadSeeker(name string, reader io.ReadSeeker) *File {
 			readBytes, err := io.Copy(writer, reader)
 			if err != nil {
 				// rewind, so that the next render starts at the beginning again
-				_, _ = reader.Seek(0, io.SeekStart)
+				_, _ = reader.Seek(start, io.SeekStart)
 				return readBytes, err
 			}
-			_, err = reader.Seek(0, io.SeekStart)
+			_, err = reader.Seek(start, io.SeekStart)
 			return readBytes, err
 		},
 	}
